@@ -21,12 +21,15 @@ Definition oracle (i : cfg_input) (tr : list obs) : bool := cfg_oracle i tr.
    F1 emptied_list_saved: save() is called while a list option is pending with NO elements
       (emptied in place, or assigned []).
    (F2 failed_listop_marks_pending is repaired in the source.)
+   F4 odd_element_saved: an ACKNOWLEDGED save() while a pending list holds an element that is not a
+      non-empty string (the integer 0 or 9050, an empty string): the element is sent as its text
+      (or, empty, clears), Tor then holds texts, but the view keeps the element as it was written.
    m_fs is not a finding but an envelope flag: a Copy whose source has a pending change.
    F3 edit_while_detached: an in-place operation on an option whose pending value is not the
       list a read returns: the option was assigned since the last save() attempt, or its
       pending value is a string (comma list assigned as text), or Tor announced a new value
       for it (CONF_CHANGED) while it was pending. *)
-Record mon := { m_st : ost; m_det : list bytes; m_f1 : bool; m_f3 : bool; m_fs : bool }.
+Record mon := { m_st : ost; m_det : list bytes; m_f1 : bool; m_f3 : bool; m_fs : bool; m_f4 : bool }.
 
 Section Mon.
   Variable opts : list (bytes * kind).
@@ -34,6 +37,11 @@ Section Mon.
 
   Definition has_empty_list (pend : list (bytes * ival)) : bool :=
     existsb (fun p : bytes * ival => match snd p with IList [] => true | _ => false end) pend.
+
+  (* a list element that Tor will not hold as it was written: anything but a non-empty string *)
+  Definition odd_elem (a : atom) : bool := match a with AStr (_ :: _) => false | _ => true end.
+  Definition has_odd_list (pend : list (bytes * ival)) : bool :=
+    existsb (fun p : bytes * ival => match snd p with IList l => existsb odd_elem l | _ => false end) pend.
 
   Definition scalar_keys (pend : list (bytes * ival)) : list bytes :=
     concat (map (fun p : bytes * ival => match snd p with IScalar _ => [fst p] | _ => [] end) pend).
@@ -46,8 +54,8 @@ Section Mon.
         match dfind_ci name opts with
         | Some (cn, k) =>
             match spec_validate k v with
-            | Some _ => {| m_st := st'; m_det := cn :: m_det m; m_f1 := m_f1 m; m_f3 := m_f3 m; m_fs := m_fs m |}
-            | None => {| m_st := st'; m_det := m_det m; m_f1 := m_f1 m; m_f3 := m_f3 m; m_fs := m_fs m |}
+            | Some _ => {| m_st := st'; m_det := cn :: m_det m; m_f1 := m_f1 m; m_f3 := m_f3 m; m_fs := m_fs m; m_f4 := m_f4 m |}
+            | None => {| m_st := st'; m_det := m_det m; m_f1 := m_f1 m; m_f3 := m_f3 m; m_fs := m_fs m; m_f4 := m_f4 m |}
             end
         | None => m
         end
@@ -55,7 +63,7 @@ Section Mon.
         match dfind_ci name opts with
         | Some (cn, k) =>
             {| m_st := st'; m_det := m_det m; m_f1 := m_f1 m;
-               m_f3 := m_f3 m || mem_bytes cn (m_det m); m_fs := m_fs m |}
+               m_f3 := m_f3 m || mem_bytes cn (m_det m); m_fs := m_fs m; m_f4 := m_f4 m |}
         | None => m
         end
     | OpSave rej =>
@@ -64,19 +72,20 @@ Section Mon.
         | pend =>
             {| m_st := st';
                m_det := match rej with None => [] | Some _ => scalar_keys pend end;
-               m_f1 := m_f1 m || has_empty_list pend; m_f3 := m_f3 m; m_fs := m_fs m |}
+               m_f1 := m_f1 m || has_empty_list pend; m_f3 := m_f3 m; m_fs := m_fs m;
+               m_f4 := m_f4 m || match rej with None => has_odd_list pend | Some _ => false end |}
         end
     | OpEvent items =>
         {| m_st := st';
            m_det := concat (map (fun it : bytes * option bytes =>
                                    let cn := canon opts (fst it) in
                                    if dmem cn (s_pend st) then [cn] else []) items) ++ m_det m;
-           m_f1 := m_f1 m; m_f3 := m_f3 m; m_fs := m_fs m |}
+           m_f1 := m_f1 m; m_f3 := m_f3 m; m_fs := m_fs m; m_f4 := m_f4 m |}
     | OpCopy dst src =>
         match dfind_ci dst opts, dfind_ci src opts with
         | Some (cd, _), Some (cs, _) =>
             {| m_st := st'; m_det := cd :: m_det m; m_f1 := m_f1 m; m_f3 := m_f3 m;
-               m_fs := m_fs m || dmem cs (s_pend st) |}
+               m_fs := m_fs m || dmem cs (s_pend st); m_f4 := m_f4 m |}
         | _, _ => m
         end
     | OpRead _ | OpNeedsSave | OpSocks => m
@@ -87,13 +96,15 @@ End Mon.
 
 Definition mon_of (i : cfg_input) : mon :=
   mon_run (options (i_table i)) (i_defaults i)
-          {| m_st := eff_ost i; m_det := []; m_f1 := false; m_f3 := false; m_fs := false |} (i_ops i).
+          {| m_st := eff_ost i; m_det := []; m_f1 := false; m_f3 := false; m_fs := false; m_f4 := false |} (i_ops i).
 
 Definition emptied_list_saved (i : cfg_input) : bool := m_f1 (mon_of i).
 Definition edit_while_detached (i : cfg_input) : bool := m_f3 (mon_of i).
 
+Definition odd_element_saved (i : cfg_input) : bool := m_f4 (mon_of i).
+
 Definition c10_known (i : cfg_input) : bool :=
-  emptied_list_saved i || edit_while_detached i.
+  emptied_list_saved i || edit_while_detached i || odd_element_saved i.
 
 (* outside the envelope (history dependent): config.A = config.B while B has a pending change --
    whether a read of B then shows the pending or the saved list is what finding F3 is about *)
